@@ -220,7 +220,9 @@ def sym_normalizers(vc):
                 # must not be written into the row the caller handed over (recorded finding F-C20-structured-cells-rewritten)
                 check(it, 'the-row-that-continues-downstream-is-left-as-it-came[%s]' % dialect, same_row(row, before))
                 cover(it, 'iter-reachable[%s]' % dialect)
-            it.loops['SQLDumper.normalize_for_engine#L1'] = LoopSpec(at_start=at_start, at_end=at_end)
+            if dialect != 'mysql':
+                # (an unknown dialect is refused before any row is looked at)
+                it.loops['SQLDumper.normalize_for_engine#L1'] = LoopSpec(at_start=at_start, at_end=at_end)
             try:
                 it.run_generator(it.call(it.lib.getattr_(it, d, 'normalize_for_engine'), [dialect, rows, schema]))
             except PyExc as pe:
